@@ -140,6 +140,18 @@ func c12buildGrids(thorough bool) {
 
 var c12vals = []string{"a", "", "hello", "10", "-3", "9223372036854775807", "-9223372036854775808", "1.5", "x\r\ny", "\x00\xff", "9223372036854775800", "-0", "+1", "01", "0"}
 
+// cfgName: a private parameter name per field; some carry upper-case letters (each name is always spelled the
+// same way, so the expectation does not depend on whether parameter names are case-sensitive)
+func cfgName(f string) string {
+	switch f {
+	case "f2":
+		return "Verif-F2"
+	case "f3":
+		return "VERIF-MaxF3"
+	}
+	return "verif-" + f
+}
+
 func c12random(r *rng.R) []resp.Value {
 	cmd := resp.Cmd
 	sk := func() string { return rng.Pick(r, []string{"s1", "s2", "s3"}) }
@@ -216,9 +228,9 @@ func c12random(r *rng.R) []resp.Value {
 			}
 			prog = append(prog, cmd(a...))
 		case 28:
-			prog = append(prog, cmd("CONFIG", "SET", "verif-"+f(), v()))
+			prog = append(prog, cmd("CONFIG", "SET", cfgName(f()), v()))
 		case 29:
-			prog = append(prog, cmd("CONFIG", "GET", "verif-"+f(), "verif-"+f(), "verif-never"))
+			prog = append(prog, cmd("CONFIG", "GET", cfgName(f()), cfgName(f()), "verif-never"))
 		case 30:
 			prog = append(prog, cmd("SET", sk(), v()))
 		case 31:
